@@ -421,18 +421,22 @@ func (x *pvTransport) SendReplicationRequestToNode(ctx context.Context, reqBin [
 	w := (*pvWorld)(x)
 	n := w.nodeIndex(node.PublicKey())
 	var req protoobject.ReplicateRequest
+	garbage := func(what string) ([]byte, error) {
+		// a real node would refuse it; the judges raise it after more specific diagnoses
+		w.mu.Lock()
+		w.recs = append(w.recs, &pvRec{seq: len(w.recs), op: w.curOp, node: n, via: "replicate", binErr: what})
+		w.mu.Unlock()
+		return nil, errors.New(what)
+	}
 	if err := proto.Unmarshal(reqBin, &req); err != nil {
-		w.r.Report("put-transport", "replication request does not decode", "request to node %d: %v", n, err)
-		return nil, err
+		return garbage("replication request does not decode")
 	}
 	var obj object.Object
 	if req.Object == nil {
-		w.r.Report("put-transport", "replication request without object", "request to node %d", n)
-		return nil, errors.New("missing object")
+		return garbage("replication request without object")
 	}
 	if err := obj.FromProtoMessage(req.Object); err != nil {
-		w.r.Report("put-transport", "replication request carries an undecodable object", "request to node %d: %v", n, err)
-		return nil, err
+		return garbage("replication request carries an undecodable object")
 	}
 	v := w.k.Gate(pvGateKey(w.nodeName(n), &obj))
 	return nil, w.deliver(ctx, n, "replicate", &obj, "", v)
